@@ -1,11 +1,7 @@
 import AcraModel.Basic.Bytes
-<<<<<<< HEAD
 import AcraModel.Sql.MysqlComment
-/-! Driver ops for C14. -/
-=======
 import AcraModel.Sql.TokenizerLoop
-/-! Driver ops for C14: the SQL tokenizer. -/
->>>>>>> wt-btok
+/-! Driver ops for C14: ExtractMysqlComment and the SQL tokenizer. -/
 namespace Driver.C14
 open AcraModel AcraModel.Sql.Tokenizer
 
@@ -34,12 +30,10 @@ def renderTok (t : Token) (pos : Nat) : String :=
 
 def handle (op : String) (args : List String) : Option String :=
   match op, args with
-<<<<<<< HEAD
   -- extractcomment <complete comment, ASCII> → ok <version> <inner SQL> | panic
   | "extractcomment", [c] => do
       let c ← ofHex c
       pure ((Sql.MysqlComment.extract c).render fun (v, s) => s!"{hexOf v} {hexOf s}")
-=======
   | "tokens", [spec, h] => do
       let (o, i, multi) ← parseSpec spec
       let b ← ofHex h
@@ -55,7 +49,6 @@ def handle (op : String) (args : List String) : Option String :=
       | .ok ts => pure (" ".intercalate (ts.map fun p => renderTok p.1 p.2))
       | .err => pure "err"
       | .panic => pure "panic"
->>>>>>> wt-btok
   | _, _ => none
 
 end Driver.C14
